@@ -43,7 +43,20 @@ pub fn gen_coding(t: &mut Tape, total: usize) -> Coding {
         chunks,
         last_ext: if t.chance(15) { b";e".to_vec() } else { vec![] },
         last_zeros: if t.chance(15) { 1 } else { 0 },
-        trailers: (0..t.weighted(&[6, 2, 1])).map(|i| if i == 0 { b"X-Sum: 1".to_vec() } else { b"t:".to_vec() }).collect(),
+        trailers: (0..t.weighted(&[6, 2, 1]))
+            .map(|i| {
+                if i == 0 && t.chance(12) {
+                    // a trailer line longer than any plausible scratch size
+                    let mut v = b"X-Sig: ".to_vec();
+                    v.extend(std::iter::repeat(b's').take(t.range(250, 600)));
+                    v
+                } else if i == 0 {
+                    b"X-Sum: 1".to_vec()
+                } else {
+                    b"t:".to_vec()
+                }
+            })
+            .collect(),
     }
 }
 
